@@ -151,6 +151,27 @@ pub fn generate(tier: Tier, rng: &mut Rng) -> Vec<Case> {
             }
         }
     }
+    // surplus arguments: whatever a function does with them, it does the same in both styles
+    for f in unary {
+        for x in ["'hello'", "[1, 2]", "1", "timestamp('2000-01-01T00:00:00Z')", "zz"] {
+            for extra in ["7", "'s', 2", "zz", "(1 / 0)"] {
+                if let Some(mut c) = evalpair_case(&default, &format!("{x}.{f}({extra})"), &format!("{f}({x}, {extra})")) {
+                    c.tags = vec!["builtin-pair", "surplus-arguments"];
+                    out.push(c);
+                }
+            }
+        }
+    }
+    for f in binary {
+        for (x, y) in [("'hello'", "'l'"), ("[1, 2]", "1"), ("'a'", "'^a$'")] {
+            for extra in ["7", "zz"] {
+                if let Some(mut c) = evalpair_case(&default, &format!("{x}.{f}({y}, {extra})"), &format!("{f}({x}, {y}, {extra})")) {
+                    c.tags = vec!["builtin-pair", "surplus-arguments"];
+                    out.push(c);
+                }
+            }
+        }
+    }
     // non-receiver built-ins called receiver style (bytes, duration, timestamp, max, min)
     for src in ["'a'.bytes()", "bytes('a')", "'1s'.duration()", "duration('1s')", "'x'.timestamp()", "[1, 2].max()", "max([1, 2])", "[3].min(1, 2)", "min(1, 2)", "1.max(2)"] {
         if let Some(mut c) = eval_case_from_src(&default, src) {
